@@ -2,8 +2,9 @@
 
 package main
 
-// Generated: the 12 custom flag.Value types of C19, one per combination of the optional
-// methods IsBoolFlag {absent, false, true} x Clear {absent, present} x IsDefault {absent, present}.
+// The custom flag.Value types of C19: one struct type per combination of the optional methods
+// IsBoolFlag {absent, false, true} x Clear {absent, present} x IsDefault {absent, present}, plus four
+// method-less types of other underlying kinds.
 
 import "errors"
 
@@ -72,6 +73,42 @@ func (v *cvTcd) IsBoolFlag() bool { return true }
 func (v *cvTcd) Clear() { v.log = append(v.log, "Clear") }
 func (v *cvTcd) IsDefault() bool { return true }
 
+// Types whose UNDERLYING kind is bool / slice / string / int but which implement none of the optional methods: the
+// protocol is driven by the optional interfaces alone, never by the shape of the type. Their call log lives in a
+// side table keyed by the pointer.
+var cvExt = map[interface{}]*cvBase{}
+
+func cvReg(v interface{}) {
+	if len(cvExt) > 1<<18 {
+		cvExt = map[interface{}]*cvBase{}
+	}
+	cvExt[v] = &cvBase{}
+}
+
+type cvKBool bool
+
+func (v *cvKBool) Set(s string) error { return cvExt[v].Set(s) }
+func (v *cvKBool) String() string     { return "custom" }
+func (v *cvKBool) base() *cvBase      { return cvExt[v] }
+
+type cvKSlice []string
+
+func (v *cvKSlice) Set(s string) error { return cvExt[v].Set(s) }
+func (v *cvKSlice) String() string     { return "custom" }
+func (v *cvKSlice) base() *cvBase      { return cvExt[v] }
+
+type cvKString string
+
+func (v *cvKString) Set(s string) error { return cvExt[v].Set(s) }
+func (v *cvKString) String() string     { return "custom" }
+func (v *cvKString) base() *cvBase      { return cvExt[v] }
+
+type cvKInt int
+
+func (v *cvKInt) Set(s string) error { return cvExt[v].Set(s) }
+func (v *cvKInt) String() string     { return "custom" }
+func (v *cvKInt) base() *cvBase      { return cvExt[v] }
+
 type cvKind struct {
 	name string
 	isBool bool
@@ -92,4 +129,8 @@ var cvKinds = []cvKind{
 	{"IsBoolFlag=true Clear=absent IsDefault=present", true, false, func() cvAny { return &cvTnd{} }},
 	{"IsBoolFlag=true Clear=present IsDefault=absent", true, true, func() cvAny { return &cvTcn{} }},
 	{"IsBoolFlag=true Clear=present IsDefault=present", true, true, func() cvAny { return &cvTcd{} }},
+	{"named bool type, no optional method", false, false, func() cvAny { v := new(cvKBool); cvReg(v); return v }},
+	{"named []string type, no optional method", false, false, func() cvAny { v := new(cvKSlice); cvReg(v); return v }},
+	{"named string type, no optional method", false, false, func() cvAny { v := new(cvKString); cvReg(v); return v }},
+	{"named int type, no optional method", false, false, func() cvAny { v := new(cvKInt); cvReg(v); return v }},
 }
